@@ -1,5 +1,6 @@
 import Driver.Common
 import GIV.Model.TsLife
+import GIV.Model.TsLifeDl
 open GIV GIV.TsLife Driver
 
 /-! line protocol of the tslife model driver (`gim_tslife`)
